@@ -35,6 +35,7 @@ type zzMsgs struct {
 	yieldW   bool
 	addr     string
 	auto     bool // answer every request at once as a correct server would (ping: empty; call: 'R'+args)
+	autoPing bool // answer heartbeats at once, leave everything else to the harness (written to out)
 }
 
 func newZZMsgs(capIn int) *zzMsgs {
@@ -78,7 +79,16 @@ func (m *zzMsgs) WriteMessage(b []byte) error {
 	if err == nil {
 		c := append([]byte(nil), b...)
 		m.writes = append(m.writes, c)
-		if m.out != nil {
+		isPing := false
+		if m.autoPing {
+			var r pbRequest
+			r.Unmarshal(c)
+			if len(r.Upgrade) == 1 && r.Upgrade[0] == zzUpgPing {
+				isPing = true
+				m.in <- zzFrame{data: zzResponse(r.Seq, "", nil)}
+			}
+		}
+		if m.out != nil && !isPing {
 			m.out <- c
 		}
 		if m.auto {
